@@ -203,6 +203,18 @@ def handleP2D (toks : List String) : List String :=
   | ["ext", g, np, rt, ys, ncpu] => go true g.toNat! np.toNat! rt.toNat! ys.toNat! ncpu.toNat!
   | _ => ["O p2d ERR"]
 
+/-- the internal partition of `Parallel2DExecutor(grid, numProcessors)` as the model computes it (compared with what the
+optional trace hook reports: `binStart[0..bins]` and the squares of every pass in `push_back` order) -/
+def handlePlan (toks : List String) : List String :=
+  match toks with
+  | [g, np] =>
+    let plan := (C33.ctorOwn g.toNat! np.toNat!).1
+    let bins := " ".intercalate (["O", "p2dplan", "bins"] ++ (List.range (plan.bins + 1)).map (fun i => toString (C33.binStart g.toNat! plan.bins i)))
+    let passes := ((List.range plan.squares.length).zip plan.squares).filter (fun (_, sqs) => !sqs.isEmpty) |>.map fun (p, sqs) =>
+      " ".intercalate (["O", "p2dplan", "pass", toString p] ++ sqs.map (fun (x, y) => s!"{x}:{y}"))
+    bins :: passes
+  | _ => ["O p2dplan ERR"]
+
 def compactWQ (s : C33.WQ.State) : C33.WQ.State :=
   let arr := (List.range s.n).toArray.map s.wk
   let dflt := s.wk s.n
@@ -261,6 +273,7 @@ def main : IO Unit := do
       let res :=
         if fn == "pe" then C33Drv.handlePE args
         else if fn == "petrace" then [C33Drv.handleTrace args]
+        else if fn == "p2dplan" then C33Drv.handlePlan args
         else if fn == "p2d" then C33Drv.handleP2D args
         else if fn == "wq" then C33Drv.handleWQ args
         else ["O " ++ fn ++ " ERR"]
